@@ -91,11 +91,18 @@ class FakeSocket(object):
     idx = self.n_recv
     self.n_recv += 1
     kind = self._fault('recv', idx)
+    if kind in ('raise_on_data', 'eof_on_data'):
+      # the connection breaks while this read is waiting for / receiving data
+      self._wait_rx()
+      kind = kind[:-len('_on_data')]
     if kind == 'raise':
       self.net.record('fault', self, ('recv', idx, kind))
-      raise _socket.error(errno.ECONNRESET, 'Connection reset by peer (injected)')
+      self.err = _socket.error(errno.ECONNRESET, 'Connection reset by peer (injected)')
+      raise self.err
     if kind == 'eof':
       self.net.record('fault', self, ('recv', idx, kind))
+      self.eof = True
+      del self.rx[:]
       return b''
     self._wait_rx()
     if not self.rx:
